@@ -74,6 +74,7 @@ var shapeFocus = map[string]string{
 	"stalled-metacall-unregister":          "unregister syncUnregister metaPeer yield syncYield createMetaSession dealer register",
 	"stalled-callee-cancel-kill":           "syncCancel cancel INTERRUPT trySend dealer call_canceling",
 	"caller-leaves-with-armed-timer":       "syncRemoveSession removeSession timerCancel timers close dealer syncCall onLeave",
+	csShape:                                "syncCancel cancel INTERRUPT trySend dealer call_canceling",
 	yrShape:                                "yield syncYield syncCancel sendResultDeadline yieldRetryDelay keepInvocation dealer",
 }
 
@@ -1126,6 +1127,7 @@ func generate(o *genOpts) []*History {
 	var out []*History
 	if o.prop == "C07" {
 		out = append(out, genYieldResume(o)...)
+		out = append(out, genCancelStalled(o)...)
 		for k := 0; k < o.n; k++ {
 			out = append(out, genC07(o, k))
 		}
